@@ -89,11 +89,25 @@ fn build(arity: usize, variant: &str, rows: &[Poseidon2CircuitRow<F>]) -> Result
         Ok((m, Box::new(move |t| check_air_satisfies::<F, EF, _>(&air, t, &[]).map_err(short))))
     } else if variant == "p2d1" {
         // compact D = 1 layout: 16 one-element limbs, rate 8
-        let rows: Vec<Poseidon2CircuitRow<F>> = rows.iter().map(|r| Poseidon2CircuitRow { in_ctl: vec![false; 16], input_indices: vec![0; 16], out_ctl: vec![false; 8], output_indices: vec![0; 8], ..r.clone() }).collect();
+        let rows: Vec<Poseidon2CircuitRow<F>> = rows
+            .iter()
+            .map(|r| if r.in_ctl.len() == 16 { r.clone() } else { Poseidon2CircuitRow { in_ctl: vec![false; 16], input_indices: vec![0; 16], out_ctl: vec![false; 8], output_indices: vec![0; 8], ..r.clone() } })
+            .collect();
         let constants = KoalaBearD1Width16::round_constants();
         let prep = extract_preprocessed_from_operations::<16, 8, F, F>(&rows, 1, 1);
         let air = Poseidon2CircuitAirKoalaBearD1Width16::new_with_preprocessed(constants.clone(), prep);
         let m = air.generate_trace_rows(&rows, &constants, 0);
+        Ok((m, Box::new(move |t| check_air_satisfies::<F, EF, _>(&air, t, &[]).map_err(short))))
+    } else if variant == "p1d1" {
+        let rows: Vec<Poseidon1CircuitRow<F>> = rows
+            .iter()
+            .map(|r| Poseidon1CircuitRow { new_start: r.new_start, merkle_path: r.merkle_path, mmcs_bit: r.mmcs_bit, mmcs_index_sum: r.mmcs_index_sum, input_values: r.input_values.clone(),
+                in_ctl: r.in_ctl.clone(), input_indices: r.input_indices.clone(), out_ctl: r.out_ctl.clone(), output_indices: r.output_indices.clone(), mmcs_index_sum_idx: r.mmcs_index_sum_idx, mmcs_ctl_enabled: r.mmcs_ctl_enabled })
+            .collect();
+        let (full, partial) = p3_poseidon1_circuit_air::KoalaBearD1Width16::round_constants();
+        let prep = p3_poseidon1_circuit_air::extract_preprocessed_from_operations::<16, 8, F, F>(&rows, 1, 1);
+        let air = p3_poseidon1_circuit_air::Poseidon1CircuitAirKoalaBearD1Width16::new_with_preprocessed(full.clone(), partial.clone(), prep);
+        let m = air.generate_trace_rows(&rows, &full, &partial, 0);
         Ok((m, Box::new(move |t| check_air_satisfies::<F, EF, _>(&air, t, &[]).map_err(short))))
     } else if variant == "p1d4" {
         let rows: Vec<Poseidon1CircuitRow<F>> = rows
@@ -198,6 +212,51 @@ pub fn run_case(arity: usize, variant: &str, pos: usize, dev: &str, rng: &mut St
     Ok(verdict(&m).err())
 }
 
+
+/// Sponge mode (PoseidonSponge.tla): chain start, a continuation (the row under test for the limb deviations), a continuation
+/// that loads limb 0 from the bus, a second chain start, a continuation, fillers.  Ok(None) = accepted.
+pub fn run_sponge_case(variant: &str, dev: &str, rng: &mut StdRng) -> Result<Option<String>, String> {
+    let compact = matches!(variant, "p2d1" | "p1d1");
+    let (width_ext, rate_ext) = if compact { (16usize, 8usize) } else { (4, 2) };
+    let d = 16 / width_ext;
+    let p2 = default_koalabear_poseidon2_16();
+    let p1 = default_koalabear_poseidon1_16();
+    let pone = variant.starts_with("p1");
+    let permute = |x: &[F]| -> Vec<F> {
+        let a: [F; 16] = x.try_into().unwrap();
+        if pone { p1.permute(a).to_vec() } else { p2.permute(a).to_vec() }
+    };
+    let rnd = |rng: &mut StdRng| F::from_u64(rng.random::<u64>() >> 1);
+    let mut rows: Vec<Poseidon2CircuitRow<F>> = Vec::new();
+    let mut out: Vec<F> = vec![F::ZERO; 16];
+    // (new_start, limb 0 loaded from the bus)
+    for (r, &(ns, ctl0)) in [(true, false), (false, false), (false, true), (true, false), (false, false)].iter().enumerate() {
+        let mut input: Vec<F> = if ns { (0..16).map(|i| if i < 8 { rnd(rng) } else { F::ZERO }).collect() } else { out.clone() };
+        if ctl0 {
+            for c in 0..d {
+                input[c] = rnd(rng);
+            }
+        }
+        match (dev, r) {
+            ("rate-limb", 1) => input[(rate_ext - 1) * d] += F::ONE,
+            ("capacity-limb-first", 1) => input[8] += F::ONE,
+            ("capacity-limb-last", 1) => input[15] += F::ONE,
+            ("ctl-limb", 2) => input[0] += F::ONE,
+            ("start-capacity", 3) => input[15] = F::TWO,
+            // row 0 of the table: only the cyclic wrap-around window (last row, row 0) looks at it
+            ("first-row-start-capacity", 0) => input[15] = F::TWO,
+            _ => {}
+        }
+        out = permute(&input);
+        let mut in_ctl = vec![false; width_ext];
+        in_ctl[0] = ctl0;
+        rows.push(Poseidon2CircuitRow { new_start: ns, merkle_path: false, input_values: input, in_ctl, ..filler(16, width_ext, rate_ext) });
+    }
+    rows.resize(HEIGHT, filler(16, width_ext, rate_ext));
+    let (m, verdict) = build(2, variant, &rows)?;
+    Ok(verdict(&m).err())
+}
+
 /// `p3r poseidon-rows --cases <ndjson> [--seed n]`: result JSON on stdout.
 pub fn cmd(args: &[String]) -> i32 {
     let arg = |name: &str| args.iter().position(|a| a == name).and_then(|i| args.get(i + 1).cloned());
@@ -210,6 +269,40 @@ pub fn cmd(args: &[String]) -> i32 {
     let mut drift: Vec<Value> = Vec::new();
     for (i, l) in BufReader::new(std::fs::File::open(cases).expect("cases")).lines().map(|l| l.unwrap()).filter(|l| !l.trim().is_empty()).enumerate() {
         let c: Value = serde_json::from_str(&l).expect("case");
+        if c["spec"] == "PoseidonSponge" {
+            let (layout, dev) = (c["layout"].as_str().unwrap(), c["dev"].as_str().unwrap().to_string());
+            let (model_accepts, in_relation) = (c["model_accepts"].as_bool().unwrap(), c["in_relation"].as_bool().unwrap());
+            let variants: &[&str] = if layout == "compact" { &["p2d1", "p1d1"] } else { &["p2d4", "p1d4"] };
+            for (vi, variant) in variants.iter().enumerate() {
+                let vname = match *variant { "p2d1" => "poseidon2-d1-compact", "p1d1" => "poseidon1-d1-compact", "p1d4" => "poseidon1", _ => "poseidon2" };
+                for rep in 0..reps {
+                    let mut rng = seeded(seed, 7_000_000 + i as u64 * 100 + rep + 1000 * vi as u64);
+                    let r = catch_unwind(AssertUnwindSafe(|| run_sponge_case(variant, &dev, &mut rng))).unwrap_or_else(|_| Err("panic".into()));
+                    *stats.entry("cases".into()).or_default() += 1;
+                    match r {
+                        Err(e) => errors.push(format!("{e}: {c}")),
+                        Ok(v) => {
+                            let accepted = v.is_none();
+                            *stats.entry(if accepted { "accepted".into() } else { "rejected".into() }).or_default() += 1;
+                            if accepted != model_accepts {
+                                *stats.entry("model_drift".into()).or_default() += 1;
+                                if drift.len() < 5 {
+                                    drift.push(json!({"case": c, "variant": vname, "code_accepts": accepted, "code": v}));
+                                }
+                            }
+                            if accepted && !in_relation {
+                                let e = groups.entry(("invalid-row-accepted".into(), format!("sponge+{dev}+{vname}"))).or_insert((0, json!({"case": c, "code": "accepted", "expected": "rejected"})));
+                                e.0 += 1;
+                            } else if !accepted && in_relation {
+                                let e = groups.entry(("honest-row-rejected".into(), format!("sponge+{dev}+{vname}"))).or_insert((0, json!({"case": c, "code": v, "expected": "accepted"})));
+                                e.0 += 1;
+                            }
+                        }
+                    }
+                }
+            }
+            continue;
+        }
         let (arity, pos, dev) = (c["arity"].as_u64().unwrap() as usize, c["pos"].as_u64().unwrap() as usize, c["dev"].as_str().unwrap().to_string());
         let (model_accepts, in_relation) = (c["model_accepts"].as_bool().unwrap(), c["in_relation"].as_bool().unwrap());
         let variants: &[&str] = if arity == 4 { &["p2d4"] } else { &["p2d4", "p2d1", "p1d4"] };
@@ -243,7 +336,7 @@ pub fn cmd(args: &[String]) -> i32 {
         }
         }
     }
-    let findings: Vec<Value> = groups.into_iter().map(|((k, s), (n, d))| json!({"property": "C11", "kind": k, "signature": format!("{k}@poseidon-merkle-row+{s}"), "count": n, "example": d})).collect();
+    let findings: Vec<Value> = groups.into_iter().map(|((k, s), (n, d))| json!({"property": "C11", "kind": k, "signature": if s.starts_with("sponge") { format!("{k}@poseidon-row+{s}") } else { format!("{k}@poseidon-merkle-row+{s}") }, "count": n, "example": d})).collect();
     println!("{}", serde_json::to_string_pretty(&json!({"stats": stats, "findings": findings, "model_drift_examples": drift, "errors": errors, "samples": []})).unwrap());
     0
 }
